@@ -398,36 +398,47 @@ func (f *Frame) applyContractEnv(con *Contract, names []string, args []Val, sig 
 		}
 		e.assumeAt(f.curReach, t)
 	}
-	if len(con.Measure) > 0 && f.top && e.con != nil && len(e.con.Measure) > 0 {
-		// recursion: the callee's measure at the call is lexicographically below
-		// this function's measure at its entry
+	lexBelow := func(kind string, callee, caller []Clause, why string) {
+		if len(callee) == 0 || !f.top || e.con == nil || len(caller) == 0 {
+			return
+		}
+		// recursion: the callee's tuple at the call is lexicographically below
+		// this function's tuple at its entry
 		centry := f.specEnv(f.entry, nil, nil)
 		var cur, ent []string
-		ok := true
-		for i := 0; i < len(con.Measure) && i < len(e.con.Measure); i++ {
-			a, _, err1 := pre.eval(con.Measure[i].Expr)
-			b, _, err2 := centry.eval(e.con.Measure[i].Expr)
+		for i := 0; i < len(callee) && i < len(caller); i++ {
+			a, _, err1 := pre.eval(callee[i].Expr)
+			b, _, err2 := centry.eval(caller[i].Expr)
 			if err1 != nil || err2 != nil {
-				e.unsupp(fmt.Sprintf("measure of %s: %v %v", disp, err1, err2))
-				ok = false
-				break
+				e.unsupp(fmt.Sprintf("%s of %s: %v %v", kind, disp, err1, err2))
+				return
 			}
 			cur = append(cur, a.T)
 			ent = append(ent, b.T)
 		}
-		if ok && len(cur) > 0 {
-			cond := "false"
-			for i := len(cur) - 1; i >= 0; i-- {
-				dec := fmt.Sprintf("(and (< %s %s) (>= %s 0))", cur[i], ent[i], ent[i])
-				if i == len(cur)-1 {
-					cond = dec
-				} else {
-					cond = fmt.Sprintf("(or %s (and (= %s %s) %s))", dec, cur[i], ent[i], cond)
-				}
-			}
-			e.addObl("measure", siteKey, f.curReach, cond, pos, "callee measure below caller's entry measure", f.props())
+		if len(cur) == 0 {
+			return
 		}
+		cond := "false"
+		for i := len(cur) - 1; i >= 0; i-- {
+			dec := fmt.Sprintf("(and (< %s %s) (>= %s 0))", cur[i], ent[i], ent[i])
+			if i == len(cur)-1 {
+				cond = dec
+			} else {
+				cond = fmt.Sprintf("(or %s (and (= %s %s) %s))", dec, cur[i], ent[i], cond)
+			}
+		}
+		if kind == "stack" {
+			// every component stays a natural number: the first starts from a constant
+			// and the rank is a literal, so this bounds the length of any chain of calls
+			for _, c := range cur {
+				cond = fmt.Sprintf("(and %s (>= %s 0))", cond, c)
+			}
+		}
+		e.addObl(kind, siteKey, f.curReach, cond, pos, why, f.props())
 	}
+	lexBelow("measure", con.Measure, e.con.measureOf(), "callee measure below caller's entry measure")
+	lexBelow("stack", con.Stack, e.con.stackOf(), "callee stack bound below caller's entry stack bound (nesting depth of calls bounded)")
 	oldHeap := f.heap.clone()
 	if con.ModAll || (len(con.Modifies) == 0 && !con.Pure && !con.Extern) {
 		// no frame declared: the callee may change anything -- except the heap variables
